@@ -1032,12 +1032,12 @@ DOM_TABLE = {
 
 
 # DOM is closed-world too: every file is scanned except the categories below (each with its reason)
+# (encoding/adobe.rs, p3.rs and gamma.rs were excluded here at first with the reason "the component is non-negative on the nominal range".
+#  That is wrong: the *linear* component of an in-range colour of another space is negative as soon as the colour is outside the target gamut,
+#  and `x.powf(g)` is NaN there -- F15, listed in known_findings.json.  They are scanned.)
 DOM_NOT_SCANNED = {
     "palette/src/macros/random.rs": "arguments are rand variates >= 0 (ranges decided by C19's STD / VOL rules)",
     "palette/src/random_sampling/cone.rs": "arguments are rand variates >= 0 (C19 VOL)",
-    "palette/src/encoding/adobe.rs": "transfer function of the component itself: non-negative on the nominal range [0, 1] (the property's inputs)",
-    "palette/src/encoding/gamma.rs": "transfer function of the component itself: non-negative on the nominal range",
-    "palette/src/encoding/p3.rs": "transfer function of the component itself: non-negative on the nominal range",
     "palette/src/encoding/prophoto.rs": "power arm selected above the knee only (lazy_select!): argument > 0 (arms decided by C05)",
     "palette/src/encoding/rec_standards.rs": "power arm selected above the knee only: argument > 0 (C05)",
     "palette/src/encoding/srgb.rs": "power arm selected above the knee only: argument > 0 (C05)",
